@@ -1,4 +1,5 @@
 import YardlModel.Wire
+import YardlModel.Json
 
 /-!
   YardlModel.Evolution — the structural core of schema-evolution change detection
@@ -503,6 +504,18 @@ def convPrim (src dst : Prim) (v : Val) : CRes :=
        | some i, some (lo, hi) => if lo ≤ i && i ≤ hi then .ok (.int i) else .unsupported "out-of-range text (std::sto* narrowing)"
        | none, _ => if bs.all (fun b => b.toNat > 57 && b.toNat < 127) then .err "Unable to convert string" else .unsupported "non-canonical text"
        | _, none => .unsupported "range")
+    -- float32 -> float64 is exact; float64 -> float32 is guarded by the generated range check (infinities fail it) and rounds to nearest
+    | .float, .float, .f32 b =>
+      if src = .float32 && dst = .float64 then
+        (if (b >>> 23) % 256 = 255 && b % 2 ^ 23 ≠ 0 then .unsupported "NaN payload" else .ok (.f64 (Json.widen b)))
+      else .unsupported "floating point conversion"
+    | .float, .float, .f64 b =>
+      if src = .float64 && dst = .float32 then
+        let mag := b % 2 ^ 63
+        if (b >>> 52) % 2048 = 2047 && b % 2 ^ 52 ≠ 0 then .unsupported "NaN"
+        else if mag > 0x47EFFFFFE0000000 then .err "Numeric overflow"
+        else .ok (.f32 (Json.narrow b))
+      else .unsupported "floating point conversion"
     | _, _, _ => .unsupported "floating point / complex conversion"
 
 def hasNullL (cs : List (Option ETy)) : Bool := cs.any Option.isNone
